@@ -20,15 +20,15 @@ type propPlan struct {
 
 var propPlans = []propPlan{
 	{ID: "C01", Title: "Muxer preserves every accepted access unit",
-		Rules:      []string{"CG0", "F5", "F6", "F10", "F16", "F17", "G13", "T6", "N3", "G2", "P1", "T7b", "F5b", "T6d", "T7g", "F28", "T10", "G13b", "P3", "P3b", "F35", "K5p", "F33", "F41", "F42", "F43", "F44", "F45", "F46", "F47", "G14", "T7t", "P8", "T7c", "L5c", "F51", "F41b", "G2c", "F45b", "F51b", "T7", "T6j", "G9", "P2"},
+		Rules:      []string{"CG0", "F5", "F6", "F10", "F16", "F17", "G13", "T6", "N3", "G2", "P1", "T7b", "F5b", "T6d", "T7g", "F28", "T10", "G13b", "P3", "P3b", "F35", "K5p", "F33", "F41", "F42", "F43", "F44", "F45", "F46", "F47", "G14", "T7t", "P8", "T7c", "L5c", "F51", "F41b", "G2c", "F45b", "F51b", "T7", "T6j", "G9", "P2", "F22d", "T6k", "F6b"},
 		NotDecided: "byte identity through mediacommon's marshaller; timestamp arithmetic (duration = next - this, base-time contiguity); cross-track interleaving; the result for any particular input.",
 		LevelText:  "Structural necessary conditions of exactly-once delivery of written units (look-ahead hand-off, part drain, payload immutability, skip-until-random-access, the 10 s constant, which time source feeds which time sink, every stream rotated at every boundary) decided on every CFG path; not the value-level equality itself."},
 	{ID: "C02", Title: "Segment boundaries",
-		Rules:      []string{"CG0", "G1", "G12", "G13", "G3", "T6", "F2", "F1", "L8", "G14", "T6d", "F22c", "T6e", "T10", "G1b", "T6f", "T8", "T6g", "F33", "F42", "F43", "T6h", "F21", "L5c", "P8b", "T6i", "T6j", "F2c"},
+		Rules:      []string{"CG0", "G1", "G12", "G13", "G3", "T6", "F2", "F1", "L8", "G14", "T6d", "F22c", "T6e", "T10", "G1b", "T6f", "T8", "T6g", "F33", "F42", "F43", "T6h", "F21", "L5c", "P8b", "T6i", "T6j", "F2c", "F5", "T6k"},
 		NotDecided: "PAT/PMT at the start of MPEG-TS segments (emitted inside mediacommon); 'never skipped when due' for inputs without random-access units; the contents of the init segment.",
 		LevelText:  "The cut condition, the pending-parameter typestate of the four video writers (every recorded parameter change raises it), forced-rotation marking and same-instant rotation of all streams are decided on every path; values are not."},
 	{ID: "C03", Title: "Playlist durations, target durations, date-times",
-		Rules:      []string{"CG0", "F1", "F15", "F21", "G4", "G4b", "G6", "G10", "N2", "S4", "F16", "F23", "F22c", "F26", "G4c", "F29", "G6b", "G13b", "F30", "G4d", "F10", "G6c", "G3c", "G4e", "F50", "L1", "G4f", "F51", "G4g", "G6d", "F51b", "F29b"},
+		Rules:      []string{"CG0", "F1", "F15", "F21", "G4", "G4b", "G6", "G10", "N2", "S4", "F16", "F23", "F22c", "F26", "G4c", "F29", "G6b", "G13b", "F30", "G4d", "F10", "G6c", "G3c", "G4e", "F50", "L1", "G4f", "F51", "G4g", "G6d", "F51b", "F29b", "F22d", "G13"},
 		NotDecided: "equality of declared and actual media time (needs the samples); PART-TARGET >= every part beyond 'ceil of max over listed parts'.",
 		LevelText:  "Telescoping of durations, monotone target duration, rounding directions, hold-back/skip factors and text resolution are decided structurally."},
 	{ID: "C04", Title: "Playlist evolution",
@@ -40,40 +40,40 @@ var propPlans = []propPlan{
 		NotDecided: "byte equality of a segment and its concatenated parts on disk (offset arithmetic); HTTP semantics outside the handlers.",
 		LevelText:  "Publication protocol: final before published, never written afterwards without the reader's lock, listed = registered, unregistered on expiry, response shape."},
 	{ID: "C06", Title: "Blocking reload, preload hints, delta updates",
-		Rules:      []string{"CG0", "L1", "L2", "L3", "L8", "L9", "F3", "G7", "G7b", "G7c", "G8", "G9", "N2", "N1", "G15", "G7d", "G3", "G7e", "G7f", "G7g", "F26b", "G7h", "F3b", "G7i", "G7j", "P3d", "G4d", "P3b", "L2b", "G7k", "G9b", "G7l", "G9c", "G7m", "P3f", "G9d", "L3h", "L4", "F9", "L2c", "G7n", "T7b", "V4n"},
+		Rules:      []string{"CG0", "L1", "L2", "L3", "L8", "L9", "F3", "G7", "G7b", "G7c", "G8", "G9", "N2", "N1", "G15", "G7d", "G3", "G7e", "G7f", "G7g", "F26b", "G7h", "F3b", "G7i", "G7j", "P3d", "G4d", "P3b", "L2b", "G7k", "G9b", "G7l", "G9c", "G7m", "P3f", "G9d", "L3h", "L4", "F9", "L2c", "G7n", "T7b", "V4n", "G19", "L2d"},
 		NotDecided: "which (M,P) are accepted or rejected (unsigned arithmetic on runtime counters); what the unblocked response contains; telling an absent _HLS_part from _HLS_part=0.",
 		LevelText:  "Wait/wake discipline over all schedules, _HLS_* filtering, delta-update shape, roll-over reaching the open segment, rejection bounds that track the live window, no response body written under a muxer lock."},
 	{ID: "C07", Title: "Close unblocks every request and releases storage",
-		Rules:      []string{"CG0", "L1", "L2", "L3", "L4", "L6", "P3", "P4", "P6", "L9", "V4i", "L2b", "P4b", "P6b", "V4l", "L3h", "L5d", "L2c", "G13b", "T7t", "T7v"},
+		Rules:      []string{"CG0", "L1", "L2", "L3", "L4", "L6", "P3", "P4", "P6", "L9", "V4i", "L2b", "P4b", "P6b", "V4l", "L3h", "L5d", "L2c", "G13b", "T7t", "T7v", "L2d"},
 		NotDecided: "'promptly' as a time bound; disk I/O latency under the lock.",
 		LevelText:  "Every waiter leaves on a closed flag that Close sets under the lock before broadcasting; no lock leaks on any path; every owned file is released. Argued sufficient (DESIGN 4, C07) for the sub-statement 'every blocked request completes non-200 after Close, no lock left held, every created file removed' under every interleaving, given monitor semantics."},
 	{ID: "C08", Title: "One writer + concurrent readers",
-		Rules:      []string{"CG0", "L1", "L3", "L4", "L5", "L5b", "L6", "L8", "L9", "P1", "P2", "V4b", "V4d", "T7f", "V4g", "T7m", "P3d", "V4i", "P7", "V4k", "P3f", "V4j", "V4l", "L5c", "P8b", "P9", "K20", "P4", "V4n"},
+		Rules:      []string{"CG0", "L1", "L3", "L4", "L5", "L5b", "L6", "L8", "L9", "P1", "P2", "V4b", "V4d", "T7f", "V4g", "T7m", "P3d", "V4i", "P7", "V4k", "P3f", "V4j", "V4l", "L5c", "P8b", "P9", "K20", "P4", "V4n", "L2d", "G19"},
 		NotDecided: "absence of every panic (nil dereferences are not modelled); single-playlist invariants of a snapshot; monotonic views.",
 		LevelText:  "Every location shared between writer and request goroutines is co-locked or frozen before publication (lockset + ownership analysis over all contexts); no zero divisor in handler code."},
 	{ID: "C09", Title: "A Client reading a Muxer",
-		Rules:      []string{"CG0", "T4", "T5", "T6", "F11", "F12", "F14", "F16", "F18", "F22", "N3", "G11", "F22b", "T8", "F10", "F27", "G16", "G16b", "K7", "G8", "L8", "F26b", "T5b", "G6c", "F32", "F35", "F37", "F39", "F48", "F36", "T6h", "G4b", "F50", "G11j", "S4", "T7b", "F51", "F40b", "F53", "F41b", "G4g", "F45b", "F51b", "F7n", "L4c", "T5c", "F39b", "F54", "F55", "F56"},
+		Rules:      []string{"CG0", "T4", "T5", "T6", "F11", "F12", "F14", "F16", "F18", "F22", "N3", "G11", "F22b", "T8", "F10", "F27", "G16", "G16b", "K7", "G8", "L8", "F26b", "T5b", "G6c", "F32", "F35", "F37", "F39", "F48", "F36", "T6h", "G4b", "F50", "G11j", "S4", "T7b", "F51", "F40b", "F53", "F41b", "G4g", "F45b", "F51b", "F7n", "L4c", "T5c", "F39b", "F54", "F55", "F56", "F22d", "F6b", "F57", "F38"},
 		NotDecided: "sample identity, time-origin arithmetic, AbsoluteTime.",
 		LevelText:  "Agreement of the muxer's and the client's codec and rendition tables; role and unit consistency of the time conversions (which source feeds which sink, rescaling from the stored rate to the caller's), segment identity computed within one playlist. Values are not decided."},
 	{ID: "C10", Title: "Client delivers every sample with normalised time",
-		Rules:      []string{"CG0", "G5", "K6", "F8", "F11", "F12", "F14", "F16", "F17", "F18", "F21", "F22", "F24", "F22b", "G16", "L4e", "G16b", "K7", "F8b", "F32", "F20", "T13", "F37", "F38", "F39", "F40", "F48", "K16", "F36", "L3d", "L4c", "F50", "K18", "F52", "F40b", "K19", "K14", "F53", "F8c", "K21", "F7n", "F7c", "T5c", "F39b", "F54", "F55", "F56", "F8d"},
+		Rules:      []string{"CG0", "G5", "K6", "F8", "F11", "F12", "F14", "F16", "F17", "F18", "F21", "F22", "F24", "F22b", "G16", "L4e", "G16b", "K7", "F8b", "F32", "F20", "T13", "F37", "F38", "F39", "F40", "F48", "K16", "F36", "L3d", "L4c", "F50", "K18", "F52", "F40b", "K19", "K14", "F53", "F8c", "K21", "F7n", "F7c", "T5c", "F39b", "F54", "F55", "F56", "F8d", "F35", "F45b", "F57", "F8e"},
 		NotDecided: "all timestamp arithmetic (rescaling, 33-bit unwrap, NTP extrapolation); sample identity.",
 		LevelText:  "Thin: no negative-time delivery, all times through the leading converter, the stream/track hand-shake cannot wedge; running clocks advance on every iteration; track times are converted with the track's clock rate and rescaled in the right direction; segment identity computed within one playlist."},
 	{ID: "C11", Title: "Segment selection",
-		Rules:      []string{"CG0", "F7", "F18", "F19", "F20", "N3", "K5", "F7c", "F7b", "F27", "F7d", "F7e", "F7f", "F7g", "F7h", "T13", "F7i", "F7j", "F7l", "F7m", "F7n", "F7p", "K7", "F7q", "V4d", "F7r", "T27", "F7s", "F7t", "L3d", "L4c", "F7u", "F7v", "T20"},
+		Rules:      []string{"CG0", "F7", "F18", "F19", "F20", "N3", "K5", "F7c", "F7b", "F27", "F7d", "F7e", "F7f", "F7g", "F7h", "T13", "F7i", "F7j", "F7l", "F7m", "F7n", "F7p", "K7", "F7q", "V4d", "F7r", "T27", "F7s", "F7t", "L3d", "L4c", "F7u", "F7v", "T20", "F7w", "F7x"},
 		NotDecided: "index arithmetic against a moving MEDIA-SEQUENCE; Range header values.",
 		LevelText:  "Start/next/limit constants, re-fetch and throttle between downloads, URL resolution, delta request that keeps the URL's own query, Range ends that depend on start and length, id and position taken from one playlist, EOS sentinel."},
 	{ID: "C12", Title: "Client termination",
-		Rules:      []string{"CG0", "K1", "K2", "K3", "K4", "K5", "L1", "L7", "F27", "L3e", "K2b", "K1b", "K5b", "K9", "K4b", "K11", "K15", "K12", "K13", "K17", "F7i", "K20", "K22", "K2c", "K4c"},
+		Rules:      []string{"CG0", "K1", "K2", "K3", "K4", "K5", "L1", "L7", "F27", "L3e", "K2b", "K1b", "K5b", "K9", "K4b", "K11", "K15", "K12", "K13", "K17", "F7i", "K20", "K22", "K2c", "K4c", "K23"},
 		Assume:     []string{"user callbacks return", "the HTTP transport honours request contexts"},
 		NotDecided: "nothing further of the structural clauses; timing ('promptly') is not decided.",
 		LevelText:  "Every goroutine is pooled, every blocking operation is cancellable by the pool context, cancel-join-send happens once. Argued sufficient (DESIGN 4, C12) for 'once Wait yields no client goroutine is running, exactly one value is yielded'."},
 	{ID: "C13", Title: "Malformed server content",
-		Rules:      []string{"CG0", "V4a", "V4b", "V4c", "V4d", "V4e", "T4", "K6", "K2", "V3", "V4f", "V2", "V4h", "K3", "V5", "K8", "K5b", "K9", "K10", "K14", "K15", "K11", "K16", "K17", "K18", "V4m", "K19", "F7s", "K21", "K22", "F12"},
+		Rules:      []string{"CG0", "V4a", "V4b", "V4c", "V4d", "V4e", "T4", "K6", "K2", "V3", "V4f", "V2", "V4h", "K3", "V5", "K8", "K5b", "K9", "K10", "K14", "K15", "K11", "K16", "K17", "K18", "V4m", "K19", "F7s", "K21", "K22", "F12", "K23", "K5c"},
 		NotDecided: "nil dereferences; busy loops in general; allocation sizes inside mediacommon.",
 		LevelText:  "The enumerated panic sources of client code (type assertions, zero divisors, nil function fields incl. every construction site, optional pointers, unchecked map lookups), no silent nil decoder, no wedge on absurd fragment counts."},
 	{ID: "C14", Title: "Marshal/Unmarshal round trip",
-		Rules:      []string{"T1", "T2", "T3", "S1", "S2", "S4", "V1b", "V3b", "F23", "T9", "P2b", "T3b", "T11", "T12", "T14", "T13", "K5p", "T15", "T16", "T17", "T18", "T19", "T20", "T21", "T23", "T26", "T22", "T25", "T28", "T29", "T30", "T31", "T32", "T33"},
+		Rules:      []string{"T1", "T2", "T3", "S1", "S2", "S4", "V1b", "V3b", "F23", "T9", "P2b", "T3b", "T11", "T12", "T14", "T13", "K5p", "T15", "T16", "T17", "T18", "T19", "T20", "T21", "T23", "T26", "T22", "T25", "T28", "T29", "T30", "T31", "T32", "T33", "T34", "T35"},
 		NotDecided: "value-level equality (float formatting of arbitrary values, key inheritance between segments, time zones, sign handling).",
 		LevelText:  "Every field, under the right tag and attribute name, in both directions; what is written can be tokenised back; strings are printed verbatim; the key tag is printed iff the key changed; integers are decimal on both sides."},
 	{ID: "C15", Title: "Decoder total, encoder grammatical",
@@ -89,15 +89,15 @@ var propPlans = []propPlan{
 		NotDecided: "byte-for-byte equivalence, offsets, reader cursor logic.",
 		LevelText:  "Thin: no read before Finalize in both backends, mirror writer forwards identically, disk part windows and offsets, reader progress (no (0, nil) without a full destination), Remove removes what Create created and does nothing else (no store, no truncation), a slice is clamped to the bound its length was tested against."},
 	{ID: "C18", Title: "Bounded retention",
-		Rules:      []string{"CG0", "G2", "G3", "P3", "P6", "P3c", "G17", "P3e", "K5p", "F33", "G2b", "P5c", "P6b", "P3g", "P3h", "P3i", "G2c"},
+		Rules:      []string{"CG0", "G2", "G3", "P3", "P6", "P3c", "G17", "P3e", "K5p", "F33", "G2b", "P5c", "P6b", "P3g", "P3h", "P3i", "G2c", "L5c"},
 		NotDecided: "byte totals per segment.",
 		LevelText:  "Size check before buffering; the window head is dropped whenever the window is over its bound, with its path, its part paths and its file; files released."},
 	{ID: "C19", Title: "LL-HLS parts are regular",
-		Rules:      []string{"CG0", "Q1", "Q2", "Q3", "G10", "G6d", "G4g", "F1", "G4d"},
+		Rules:      []string{"CG0", "Q1", "Q2", "Q3", "G10", "G6d", "G4g", "F1", "G4d", "G13"},
 		NotDecided: "all the arithmetic: which multiple of the sample duration D is, the 85 % search of findCompatiblePartDuration and its 5 ms step, the upper bound D < 2 x max(PartMinDuration, sample duration) + sample duration, what happens with several sample durations, rounding of PART-TARGET beyond 'up to the millisecond'. Deciding those needs evaluating the code over value ranges (enumeration, symbolic execution): other technique families.",
 		LevelText:  "Thin, structural necessary conditions only: the part switch measures the time elapsed since the open part's own start against a threshold field of the segmenter; that threshold is adjusted before it is compared on the leading track's path; it is at least PartMinDuration by construction (search result that starts at the user's value and only adds non-negative steps); a part starts at the instant the previous one ends, in every stream; PART-TARGET is the maximum over every listed part including the open segment's, rounded up, copied to every rendition. The 85 % / 100 % bounds themselves are value-level and not decided."},
 	{ID: "C20", Title: "Client download pipeline",
-		Rules:      []string{"CG0", "L1", "L4c", "L3c", "K2", "F7", "N3", "L7", "F7b", "F25", "L3d", "L4e", "L3e", "K2b", "L3f", "L3g", "K11", "F7q", "F8c", "F38", "K20", "K2c", "F8d"},
+		Rules:      []string{"CG0", "L1", "L4c", "L3c", "K2", "F7", "N3", "L7", "F7b", "F25", "L3d", "L4e", "L3e", "K2b", "L3f", "L3g", "K11", "F7q", "F8c", "F38", "K20", "K2c", "F8d", "F7w"},
 		NotDecided: "exactly-once as a history property beyond the mutation shapes of the queue.",
 		LevelText:  "Queue state only under its mutex, wake-up channels captured under the lock, signal after change, one throttle between downloads."},
 }
